@@ -43,9 +43,13 @@ mod c04;
 #[cfg(kani)]
 mod c05;
 #[cfg(kani)]
+mod c05e;
+#[cfg(kani)]
 mod trace;
 #[cfg(kani)]
 mod c06;
+#[cfg(kani)]
+mod c08;
 #[cfg(kani)]
 mod c09;
 #[cfg(kani)]
@@ -54,6 +58,8 @@ mod c16;
 mod c17;
 #[cfg(kani)]
 mod c18;
+#[cfg(kani)]
+mod c18r;
 #[cfg(kani)]
 mod c19;
 #[cfg(kani)]
